@@ -35,7 +35,7 @@ fn concrete(w: &World, i: &J) -> InstructionV2 {
     let buckets = |i: &J| -> Vec<ManifestBucket> { u32s(&i["bs"]).into_iter().map(ManifestBucket).collect() };
     let proofs = |i: &J| -> Vec<ManifestProof> { u32s(&i["ps"]).into_iter().map(ManifestProof).collect() };
     match i["op"].as_str().unwrap() {
-        "take" => TakeAllFromWorktop { resource_address: XRD }.into(),
+        "take" => TakeFromWorktop { resource_address: XRD, amount: dec!(1) }.into(), // several takes must all be non-empty
         "return" => ReturnToWorktop { bucket_id: b("b") }.into(),
         "burn" => BurnResource { bucket_id: b("b") }.into(),
         "proof_b" => CreateProofFromBucketOfAll { bucket_id: b("b") }.into(),
@@ -46,6 +46,9 @@ fn concrete(w: &World, i: &J) -> InstructionV2 {
         "drop" => DropProof { proof_id: p("p") }.into(),
         "drop_all" => DropAllProofs.into(),
         "drop_named" => DropNamedProofs.into(),
+        "drop_az" => DropAuthZoneProofs.into(),
+        "drop_az_regular" => DropAuthZoneRegularProofs.into(),
+        "drop_az_sig" => DropAuthZoneSignatureProofs.into(),
         "alloc" => AllocateGlobalAddress { package_address: ACCOUNT_PACKAGE, blueprint_name: "Account".to_string() }.into(),
         "assert_next" => AssertNextCallReturnsInclude { constraints: ManifestResourceConstraints::new() }.into(),
         "assert_bucket" => AssertBucketContents { bucket_id: b("b"), constraint: ManifestResourceConstraint::AtLeastAmount(Decimal::ZERO) }.into(),
@@ -507,6 +510,70 @@ fn scenarios() -> Vec<J> {
     ];
     let configs = [("v1", 0, 0), ("system", 0, 0), ("system", 1, 0), ("v2", 0, 0), ("v2", 0, 1), ("sub", 0, 0), ("sub", 0, 1)];
     let mut out = vec![];
+    // ---- invalidation product: after a common prefix (buckets 0, 1; auth-zone proof 0; proof 1 locking bucket 1; reservation 0 and
+    // named address 0) EVERY instruction that invalidates names - explicitly, in bulk or by passing them on - is followed by a use of
+    // each kind of name (those it must have invalidated and those it must not).  StaticOK decides; accepted ones are executed.
+    {
+        struct T { b: Vec<u32>, p: Vec<(u32, i64)>, np: u32, nb: u32, r: Vec<u32> }
+        fn apply(t: &mut T, i: &J) {
+            let ids = |k: &str| -> Vec<u32> { i.get(k).and_then(|x| x.as_array()).map(|a| a.iter().map(|x| x.as_u64().unwrap() as u32).collect()).unwrap_or_default() };
+            match i["op"].as_str().unwrap() {
+                "take" => { t.b.push(t.nb); t.nb += 1; }
+                "return" | "burn" => { let b = i["b"].as_u64().unwrap() as u32; t.b.retain(|x| *x != b); }
+                "proof_b" => { t.p.push((t.np, i["b"].as_i64().unwrap())); t.np += 1; }
+                "pop" | "proof_az" => { t.p.push((t.np, -1)); t.np += 1; }
+                "push" | "drop" => { let p = i["p"].as_u64().unwrap() as u32; t.p.retain(|x| x.0 != p); }
+                "clone" => { let p = i["p"].as_u64().unwrap() as u32; if let Some(src) = t.p.iter().find(|x| x.0 == p).map(|x| x.1) { t.p.push((t.np, src)); } t.np += 1; }
+                "drop_all" | "drop_named" => t.p.clear(),
+                "alloc" => t.r.push(t.r.len() as u32),
+                "call" | "yield_parent" | "yield_child" => {
+                    let (bs, ps, rs) = (ids("bs"), ids("ps"), ids("rs"));
+                    t.b.retain(|x| !bs.contains(x));
+                    t.p.retain(|x| !ps.contains(&x.0));
+                    t.r.retain(|x| !rs.contains(x));
+                }
+                _ => {}
+            }
+        }
+        let prefix = vec![i("take"), i("take"), i("pop"), b("proof_b", 1), i("alloc")];
+        let invalidators: Vec<(&str, Vec<J>)> = vec![
+            ("nothing", vec![]),
+            ("drop_all", vec![i("drop_all")]), ("drop_named", vec![i("drop_named")]),
+            ("drop_az", vec![i("drop_az")]), ("drop_az_regular", vec![i("drop_az_regular")]), ("drop_az_sig", vec![i("drop_az_sig")]),
+            ("return-b0", vec![b("return", 0)]), ("burn-b0", vec![b("burn", 0)]), ("deposit-b0", vec![dep(vec![0])]),
+            ("pass-p0", vec![call(vec![], vec![0], vec![], vec![], -1, 0)]), ("pass-p1", vec![call(vec![], vec![1], vec![], vec![], -1, 0)]),
+            ("push-p0", vec![p("push", 0)]), ("push-p1", vec![p("push", 1)]), ("drop-p0", vec![p("drop", 0)]), ("drop-p1", vec![p("drop", 1)]),
+            ("use-r0", vec![call(vec![], vec![], vec![0], vec![], -1, 0)]),
+            ("clone-p1-drop-p1", vec![p("clone", 1), p("drop", 1)]), ("clone-p0", vec![p("clone", 0)]),
+            ("take-more", vec![i("take")]),
+            ("yield-parent-b0", vec![json!({"op": "yield_parent", "bs": [0], "ps": []})]),
+            ("yield-child-b0", vec![json!({"op": "yield_child", "child": 0, "bs": [0], "ps": []})]),
+            ("assert-bucket-b0", vec![b("assert_bucket", 0)]),
+        ];
+        let probes: Vec<(&str, J)> = vec![
+            ("assert-b0", b("assert_bucket", 0)), ("proof-of-b0", b("proof_b", 0)), ("return-b0", b("return", 0)), ("return-b1", b("return", 1)),
+            ("deposit-b1", dep(vec![1])), ("clone-p0", p("clone", 0)), ("drop-p0", p("drop", 0)), ("clone-p1", p("clone", 1)), ("push-p1", p("push", 1)),
+            ("pass-p0", call(vec![], vec![0], vec![], vec![], -1, 0)), ("use-r0", call(vec![], vec![], vec![0], vec![], -1, 0)),
+            ("named-arg-a0", call(vec![], vec![], vec![], vec![0], -1, 0)), ("named-target-a0", call(vec![], vec![], vec![], vec![], 0, 0)),
+        ];
+        for (iname, inv) in invalidators.iter() {
+            for (pname, probe) in probes.iter() {
+                for (kind, pre, nc) in [("v1", 0, 0), ("v2", 0, 1), ("sub", 0, 1)] {
+                    let mut t = T { b: vec![], p: vec![], np: 0, nb: 0, r: vec![] };
+                    let mut ins: Vec<J> = prefix.clone();
+                    ins.extend(inv.iter().cloned());
+                    ins.push(probe.clone());
+                    for x in ins.iter() { apply(&mut t, x); }
+                    // tidy ending computed from what is still alive when everything before was well-formed
+                    if !t.p.is_empty() { ins.push(i("drop_named")); }
+                    if !t.b.is_empty() { ins.push(dep(t.b.clone())); }
+                    for r in t.r.iter() { ins.push(call(vec![], vec![], vec![*r], vec![], -1, 0)); }
+                    if kind == "sub" { ins.push(json!({"op": "yield_parent", "bs": [], "ps": []})); }
+                    out.push(json!({"scenario": format!("inv:{}:{}", iname, pname), "kind": kind, "pre": pre, "nc": nc, "ins": ins}));
+                }
+            }
+        }
+    }
     for (name, body) in bodies.iter() {
         for (kind, pre, nc) in configs {
             let mut ins = body.clone();
